@@ -15,3 +15,22 @@ M.contract('xtuml.meta.sort_reflexive@empty', [('set_of_instances', QSET), ('rel
 M.contract('xtuml.meta.sort_reflexive@not-a-query-set', [('set_of_instances', OSET), ('rel_id', VAL), ('phrase', STR)], returns=QSET,
            requires={'some-other-collection': 'set_of_instances is None or not isinstance(set_of_instances, QuerySet)'},
            raises=[Raises('MetaException', when='True')], modifies=[])
+
+# ---- the search for the opposite phrase: without a reflexive link of that number carrying another phrase there is nothing to sort across
+M.use('contracts.c02')
+M.spec('''
+def opposite_candidate(l, mc, rel, phrase):
+    return l.to_metaclass is mc and l.rel_id == rel and l.phrase != phrase
+''')
+M.contract('xtuml.meta.sort_reflexive@no-opposite-phrase', [('set_of_instances', QSET), ('rel_id', VAL), ('phrase', STR)], returns=QSET,
+           requires={'a-non-empty-query-set': 'set_of_instances is not None and isinstance(set_of_instances, QuerySet) and len(set_of_instances.view) > 0 '
+                                              'and set_of_instances.view[0] is not None and set_of_instances.view[0].__metaclass__ is not None',
+                     'rel-id-shape': 'is_int(rel_id) or is_str(rel_id)',
+                     'links': 'all(set_of_instances.view[0].__metaclass__.links[k] is not None for k in map_keys(set_of_instances.view[0].__metaclass__.links))',
+                     'no-reflexive-link-of-that-number-with-another-phrase':
+                     'all(not opposite_candidate(set_of_instances.view[0].__metaclass__.links[k], set_of_instances.view[0].__metaclass__, norm_rel(rel_id), phrase) '
+                     'for k in map_keys(set_of_instances.view[0].__metaclass__.links))'},
+           raises=[Raises('UnknownLinkException', when='True')], modifies=[],
+           loops={0: Loop(inv={'walks-the-links': 'len(_seq) == len(map_keys(metaclass.links)) and all(_seq[j] is metaclass.links[map_keys(metaclass.links)[j]] for j in range(0, len(_seq)))',
+                               'rel-normalised': 'rel_id == norm_rel(old(rel_id))',
+                               'metaclass': 'metaclass is set_of_instances.view[0].__metaclass__'})})
